@@ -128,6 +128,7 @@ MUTANTS = {
     "M_floor_zero": M(METHOD, "self.M = [1.0 for _", "self.M = [1e-9 for _", ["C02"]),
     "stop_lt_to_le": M(METHOD, "if self.min_delta < self.parameters.eps or", "if self.min_delta <= self.parameters.eps or", ["C03"]),
     "stop_ge_to_gt": M(METHOD, "self.iterationsCount >= self.parameters.itersLimit", "self.iterationsCount > self.parameters.itersLimit", ["C03"]),
+    "iters_limit_ignored": M(METHOD, "if self.min_delta < self.parameters.eps or self.iterationsCount >= self.parameters.itersLimit:", "if self.min_delta < self.parameters.eps:", ["C03"], note="non-termination within the budget: decided by the evaluation/iteration watchdog"),
     "min_delta_from_new_interval": M(METHOD, "        self.min_delta = min(old.delta, self.min_delta)\n        newx = self.CalculateNextPointCoordinate(old)", "        newx = self.CalculateNextPointCoordinate(old)\n        self.min_delta = min(pow(old.GetX() - newx, 1.0 / self.dimension), self.min_delta)", ["C03"]),
     "trial_counter_before_evaluation": M(METHOD, "        point = self.task.Calculate(point, 0)\n        point.SetZ(point.functionValues[0].value)\n        point.SetIndex(0)\n\n        # Обновление числа испытаний\n        self.searchData.solution.numberOfGlobalTrials += 1", "        self.searchData.solution.numberOfGlobalTrials += 1\n        point = self.task.Calculate(point, 0)\n        point.SetZ(point.functionValues[0].value)\n        point.SetIndex(0)", ["C16"]),
     "item_inserted_before_evaluation": M(PROCESS, "                self.method.CalculateFunctionals(newpoint)\n                self.method.UpdateOptimum(newpoint)\n                self.method.RenewSearchData(newpoint, oldpoint)", "                self.method.RenewSearchData(newpoint, oldpoint)\n                self.method.CalculateFunctionals(newpoint)\n                self.method.UpdateOptimum(newpoint)", ["C16", "C02"]),
